@@ -137,10 +137,16 @@ class AnsiDecoder:
         _Style = Style
         text = Text()
         append = text.append
-        line = line.rstrip("\r").rsplit("\r", 1)[-1]
+        line = line.rstrip("\r")
         for token in _ansi_tokenize(line):
             plain_text, sgr, osc = token
             if plain_text:
+                if "\r" in plain_text:
+                    # A carriage return starts the line again: what follows replaces
+                    # the text so far, styles set by earlier escape codes stay in force
+                    text = Text()
+                    append = text.append
+                    plain_text = plain_text.rsplit("\r", 1)[-1]
                 append(plain_text, self.style or None)
             elif osc:
                 if osc.startswith("8;"):
